@@ -397,7 +397,7 @@ func (e *Engine) solveAll(obls []*Obligation, workDir string, stats *SolveStats,
 			cmu.Lock()
 			cache[ck] = o
 			cmu.Unlock()
-			if o.Status == want {
+			if o.Status == want && os.Getenv("GSV_KEEP_ALL") == "" {
 				os.Remove(f)
 				os.Remove(fc)
 			}
